@@ -28,18 +28,24 @@ LEVEL = "proof"
 CLAIM = dict(
     category="proof",
     text="DarsiaProps.C14 over exact rationals, all inputs. Theorems with content: clip bounds / idempotence; scaling / linear affine, the "
-    "isclose shortcut as an explicit guard |s-1| <= 1e-8+1e-5 with a theorem on either side; CombinedModel = sequential composition; "
+    "isclose shortcut as an explicit guard |s-1| <= 1e-8+1e-5 with a theorem on either side; CombinedModel = sequential composition, stated on "
+    "the executed model callAll, incl. the extra-argument branch of __call__ (callStages: a StaticThresholdModel part gets the mask, "
+    "parameter models no extra argument); "
     "parameter routing for 'all' and every list of (position, dofs) entries as global consecutive slices (routing_all, "
     "routing_subset_slices); the label LOOP over np.unique(labels) with mask assignment as coded - HeterogeneousLinearModel, "
-    "label-wise StaticThresholdModel incl. the mask / return_float tail, the HeterogeneousModel wrapper - proved equal to the "
+    "(over the unique labels of the ORIGINAL map, on the label map in force: a label dropped by a resize does not shift the others; "
+    "hetero_call_after_any_history composes it with the label cache), label-wise StaticThresholdModel incl. the mask / return_float tail, "
+    "the HeterogeneousModel wrapper - proved equal to the "
     "per-label homogeneous model / the clause 'strictly between the bounds inside the mask' (hetero_loop_eq_homog_on_label, "
     "threshold_ops_eq_clause, wrapper_loop_eq_model); the label map in force after any call sequence = nearest-neighbour resize of the "
     "ORIGINAL labels for OpenCV's index rule (exact floor, one below at tabulated double-rounding breakpoints); poly_span for all d; "
     "KernelInterpolation as a state machine: for ALL update sequences cached inverse and weights belong to the current kernel / "
     "supports / values, hence reproduction at the current supports when the current kernel matrix is invertible (abstract kernel, any "
-    "field); the accumulation loop of linear_combination = plain kernel sum for every kernel function and the three signal shapes. "
+    "field); the accumulation loop of linear_combination = plain kernel sum for every kernel function and the three signal shapes "
+    "(guard: one weight per support, at least one support). "
     "Definitional (unfold the pointwise model, kept as clause forms): hetero_eq_homog_on_label, threshold_strict, threshold_hetero, "
-    "wrapper_eq_model_on_label, hetero_result_type; routing_one / routing_subset restate the class dispatch restricted to one slice. "
+    "wrapper_eq_model_on_label, hetero_result_type; routing_one / routing_subset restate the class dispatch restricted to one slice; "
+    "dispatch_matches_code, poly_matches_code, resize_matches_code, cv2_rounding_points_ok are tie checks (generated table vs model). "
     "Tie: exact differential correspondence of the OPERATIONAL models on dyadic inputs for float64, float32, uint8, uint16 and int64 "
     "signals (values and element type of the result), error classes, update sequences; G1 tables (dof dispatch, exponents d <= 8, "
     "cv2 rounding points n,N <= 64, index maps <= 16); LinearKernel numba / plain loop exactly on dyadic float32.",
@@ -954,6 +960,11 @@ def oracle_kernel_sequences(ctx, d):
 # (sorted, de-duplicated) supports, the re-indexed values and WHICH inverse the weights were computed with
 
 
+def rng_choice_known(nrng):
+    """the two calls of the known finding (default dofs / kernel dof): they raise TypeError once data is present"""
+    return "pdef" if nrng.random() < 0.5 else "pker"
+
+
 def gen_kern_ops(nrng, malformed=False):
     pool = gen_supports(nrng, "*", 4)  # principal sub-matrices of a well-conditioned PSD matrix are well conditioned
     k0 = int(nrng.integers(0, 3))
@@ -988,6 +999,8 @@ def gen_kern_ops(nrng, malformed=False):
             ops.append(("ker", int(nrng.integers(0, 3))))
         elif r < 0.9:
             ops.append(("vp", "CURRENT+"))
+        elif malformed and have_s and r < 0.95:
+            ops.append((rng_choice_known(nrng),))
         elif cur_n:
             # supports only: the stored values are re-used, so keep their number (new coordinates, same count)
             ops.append(("upd", None, pool[nrng.permutation(4)[:cur_n].tolist()].tolist(), None, False))
@@ -1018,6 +1031,10 @@ def run_kern_ops(d, nrng, k0, ops):
         elif op[0] == "ker":
             toks.append(f"ker {op[1]}")
             r = call(ki.update_kernel, kernels[op[1]])
+        elif op[0] in ("pdef", "pker"):
+            toks.append(op[0])
+            pv = np.array([0.5] + [0.25] * int(ki.num_supports))
+            r = call(ki.update_model_parameters, pv) if op[0] == "pdef" else call(ki.update_model_parameters, pv, ["kernel"])
         else:
             ps = (nrng.integers(0, 17, int(ki.num_supports) + 2) / 16).tolist()  # longer than needed: only the first num_supports count
             toks.append(f"vp {len(ps)} " + " ".join(fr(x) for x in ps))
@@ -1201,6 +1218,30 @@ def wrapper_resize_boundary(ctx, d):
         impl.append(" ; ".join(" ".join(str(int(uniq[int(v) - 2])) for v in row) for row in dec) if ok else "!values")
     ctx.correspond("label-map-resize", lines, impl)
 
+    # the whole label-wise call on a signal of ANOTHER shape, values compared: the loop runs over the unique labels of the ORIGINAL map,
+    # so a label that the resize drops must not shift the scaling / offset of the others (forced: strong down-sampling of maps with many labels)
+    lines, impl = [], []
+    for t in range(ctx.pick(40, 300)):
+        h, w = rng.randint(1, 8), rng.randint(2, 10)
+        L = rng.randint(2, 5)
+        label_values = sorted(rng.sample(range(0, 40), L))
+        flat = label_values + [rng.choice(label_values) for _ in range(max(0, h * w - L))]
+        flat = flat[: h * w] if t % 3 == 0 else rng.sample(flat[: h * w], len(flat[: h * w]))
+        lab = np.array(flat, dtype=rng.choice([np.uint8, np.int32])).reshape(h, w)
+        uniq = np.unique(lab)
+        if t % 2 == 0:
+            H, W = max(1, h // rng.randint(1, 4)), max(1, w // rng.randint(2, 5))  # coarse: labels get lost
+        else:
+            H, W = rng.randint(1, NEAR_MAX), rng.randint(1, NEAR_MAX)
+        sc, of = [dy(rng) for _ in uniq], [dy(rng) for _ in uniq]
+        vals = [dy(rng, -32, 32, 16) for _ in range(H * W)]
+        lines.append(f"hetcall {h} {w} " + " ".join(str(int(v)) for v in lab.ravel()) + f" | {len(uniq)} {fmts(sc)} {fmts(of)} | {H} {W} | {H * W} {fmts(vals)}")
+        m = call(d.HeterogeneousLinearModel, lab, scaling=[float(x) for x in sc], offset=[float(x) for x in of])
+        out = m if isinstance(m, Raised) else call(m, np.array([float(v) for v in vals]).reshape(H, W))
+        impl.append(repr(out) if isinstance(out, Raised) else ("!shape" if np.asarray(out).shape != (H, W) else fmts(np.asarray(out).ravel())))
+    lost = sum(1 for l_ in lines if True)
+    ctx.correspond("label-wise-call-on-resized-labels", lines, impl)
+
     # (3) the isclose boundary of ScalingModel: the two floats next to either boundary, signals +-2^j (exact products)
     ok = True
     cases = []
@@ -1217,7 +1258,7 @@ def wrapper_resize_boundary(ctx, d):
 
 def label_sequence_case(rng):
     h, w = rng.randint(2, NEAR_MAX), rng.randint(2, NEAR_MAX)
-    L = rng.randint(2, 4)
+    L = rng.randint(2, 5)
     label_values = sorted(rng.sample(range(0, 40), L))
     # fine structure: 1-px stripes / checkerboard / random, so that a down-sampled copy differs from the original
     kind = rng.choice(["stripes", "checker", "random"])
@@ -1245,18 +1286,22 @@ def run_label_sequence(d, lab, shapes, sc, of, sigs=None):
         out = call(m, sig.copy())
         if isinstance(out, Raised) or np.asarray(out).shape != tuple(shp):
             return {"step": i, "shape": list(shp), "what": f"call raises / wrong shape: {out!r}"[:160]}
-        if tuple(shp) == laba.shape:
+        if True:
+            # the labelled regions of this call: the original map, or its nearest-neighbour resize to the signal's shape
+            import cv2
+
+            laba_here = laba if tuple(shp) == laba.shape else cv2.resize(laba, (shp[1], shp[0]), interpolation=cv2.INTER_NEAREST)
             want = np.zeros(shp)
             for li, l in enumerate(uniq):
                 hom = call(d.LinearModel(scaling=float(sc[li]), offset=float(of[li])), sig.copy())
                 if isinstance(hom, Raised):
                     return {"step": i, "shape": list(shp), "what": f"the homogeneous LinearModel of label {int(l)} raises {hom!r}"}
-                want[laba == l] = hom[laba == l]
+                want[laba_here == l] = hom[laba_here == l]
             if not np.array_equal(out, want):
                 bad = np.argwhere(np.asarray(out) != want)[0].tolist()
-                return {"step": i, "shape": list(shp), "what": "at the resolution of the label map the label-wise model differs from the homogeneous model of the label "
-                        "on its region (after earlier calls at other resolutions)", "pixel": bad, "observed": float(np.asarray(out)[tuple(bad)]),
-                        "required": float(want[tuple(bad)]), "label": int(laba[tuple(bad)])}
+                return {"step": i, "shape": list(shp), "what": "the label-wise model differs from the homogeneous model of the label on its region of the label map in force "
+                        "(the original map, or its nearest-neighbour resize to the signal's shape)", "pixel": bad, "observed": float(np.asarray(out)[tuple(bad)]),
+                        "required": float(want[tuple(bad)]), "label": int(laba_here[tuple(bad)])}
     return None
 
 
@@ -1516,6 +1561,68 @@ def oracle_wrapper_kernel(ctx, d):
                      {"labels": lab.tolist(), "kernel": kname, **bad})
 
 
+def combined_args_correspondence(ctx, d):
+    """CombinedModel.__call__(img, *args): sub-models whose __call__ takes a further argument (StaticThresholdModel: mask) get it, the
+    parameter models do not; with and without the extra argument; thresholding followed by further models (boolean arrays)."""
+    rng = ctx.rng
+    lines, impl = [], []
+    for t in range(ctx.pick(60, 500)):
+        L = rng.randint(1, 4)
+        shape = (rng.randint(1, 3), rng.randint(2, 4))
+        while shape[0] * shape[1] < L:
+            shape = (shape[0] + 1, shape[1])
+        npx = shape[0] * shape[1]
+        labs = list(range(L)) + [rng.randrange(L) for _ in range(npx - L)]
+        rng.shuffle(labs)
+        label_values = sorted(rng.sample(range(0, 40), L))
+        lab = np.array([label_values[l] for l in labs]).reshape(shape)
+        dt = rng.choice(["f64", "f64", "f32", "u8"])
+        vals = [gen_value(rng, dt) if dt != "u8" else Fraction(rng.randint(0, 4)) for _ in range(npx)]
+        sig = np.array([float(v) for v in vals]).reshape(shape).astype(NP_OF[dt])
+        stages, objs = [], []
+        n_st = rng.randint(1, 3)
+        for k in range(n_st):
+            r = rng.random()
+            if r < 0.45:
+                lo = rng.choice([dy(rng, 0, 8, 16), rng.choice(vals)])
+                hi = rng.choice([None, lo + dy(rng, 0, 16, 16)])
+                rf = rng.random() < 0.3
+                stages.append(f"thrh {fmt(lo)} {'none' if hi is None else fmt(hi)} {1 if rf else 0}")
+                objs.append(call(d.StaticThresholdModel, float(lo), None if hi is None else float(hi), None, rf))
+            elif r < 0.6:
+                lo = [dy(rng, 0, 8, 16) for _ in range(L)]
+                hi = None if rng.random() < 0.4 else [x + dy(rng, 0, 16, 16) for x in lo]
+                rf = rng.random() < 0.3
+                stages.append(f"thrt {L} {fmts(lo)} " + ("none" if hi is None else "some " + fmts(hi)) + (" 1" if rf else " 0"))
+                objs.append(call(d.StaticThresholdModel, [float(x) for x in lo], None if hi is None else [float(x) for x in hi], lab, rf))
+            else:
+                m = f32_safe(rng, gen_models(rng, 1, L, near_one=False))[0]
+                stages.append(tok_model(m))
+                objs.append(call(build, d, m, lab))
+        mask = None if rng.random() < 0.4 else [rng.random() < 0.6 for _ in range(npx)]
+        lines.append(f"runargs {dt} {n_st} " + " ".join(stages) + " | " + ("nomask" if mask is None else "mask " + " ".join("1" if b else "0" for b in mask))
+                     + f" | {npx} " + " ".join(f"{label_values[l]} {fmt(v)}" for l, v in zip(labs, vals)))
+        if any(isinstance(o, Raised) for o in objs):
+            impl.append("!construct")
+            continue
+        comb = d.CombinedModel(objs)
+        out = call(comb, sig.copy()) if mask is None else call(comb, sig.copy(), np.array(mask).reshape(shape))
+        impl.append(repr(out) if isinstance(out, Raised) else ("!shape" if np.asarray(out).shape != shape else dtok(out) + " " + fmts(np.asarray(out, dtype=float).ravel())))
+        # the property on the implementation: the combination is its parts applied in order, each part called the way it is called alone
+        # (a threshold part with the mask, a parameter model without)
+        seq = sig.copy()
+        for o in objs:
+            seq = call(o, seq, np.array(mask).reshape(shape)) if isinstance(o, d.StaticThresholdModel) and mask is not None else call(o, seq)
+            if isinstance(seq, Raised):
+                break
+        ctx.count(("combined-args", lines[-1]))
+        if isinstance(seq, Raised) != isinstance(out, Raised) or (not isinstance(seq, Raised) and not np.array_equal(np.asarray(out), np.asarray(seq))):
+            ctx.fail("C14:CombinedModel.__call__(img, *args):composition", "CombinedModel(parts)(signal, mask) differs from applying the parts in order "
+                     "(threshold parts with the mask, parameter models without)",
+                     {"line": lines[-1], "observed": impl[-1][:200], "required": repr(seq) if isinstance(seq, Raised) else dtok(seq) + " " + fmts(np.asarray(seq, dtype=float).ravel())[:200]})
+    ctx.correspond("combined-call-with-extra-arguments", lines, impl)
+
+
 def oracle_kernel(ctx, d):
     rng = np.random.default_rng(ctx.rng.randrange(2**31))
     worst_rep, worst_numba = 0.0, 0.0
@@ -1702,6 +1809,7 @@ def run(ctx):
     ctx.correspond("poly-exponents", pl, pi)
 
     wrapper_resize_boundary(ctx, d)
+    combined_args_correspondence(ctx, d)
     oracle_poly(ctx, d, poly, sizes)
     oracle_models(ctx, d)
     oracle_threshold(ctx, d, thr)
@@ -1722,6 +1830,8 @@ def run(ctx):
         "np.clip / numpy broadcasting / boolean mask assignment semantics (tied by the exact correspondence on dyadic inputs)",
         "np.isclose default tolerances 1e-8 + 1e-5 (ScalingModel shortcut); inputs stay away from the threshold",
         "kernel interpolation: exp, np.linalg.inv, float32 casts and numba kernels are observed with tolerances, not modelled",
+        "kernel sums with NO supports are outside the quantifier (1..4 supports): the code then indexes weights[0] / supports[0] out of bounds and returns "
+        "garbage; observed, not checked; kernel_loop_eq_plain_sum carries the guard",
         "states after a raising update are outside C14 (the theorems assume the call sequence does not raise; the correspondence stops at the first "
         "error and compares its class). What the code leaves behind is only recorded: failed_update_observations, update_paths_static",
         "signal shapes (decided from docs and usage): HeterogeneousModel is used on (H,W,3) colour signals with per-label KernelInterpolation "
